@@ -67,6 +67,7 @@ type Path struct {
 	concrete  map[string]*big.Int // concrete-replay assignment (nil in symbolic mode)
 	ghost     map[string]Value
 	clockLast *Term
+	pcSet     map[*Term]bool
 }
 
 func (p *Path) replaying() bool { return len(p.decisions) < len(p.prefix) }
@@ -121,7 +122,8 @@ func (x *Explorer) Run() *HarnessResult {
 	m := x.m
 	m.X = x
 	start := time.Now()
-	q0, t0 := m.S.Queries, m.S.Time
+	m.S.Restart()
+	q0, t0, e0 := m.S.Queries, m.S.Time, m.S.Errors
 	x.work = [][]Decision{nil}
 	for len(x.work) > 0 {
 		if m.cfg.MaxPaths > 0 && x.R.Paths >= m.cfg.MaxPaths {
@@ -136,6 +138,9 @@ func (x *Explorer) Run() *HarnessResult {
 	x.R.Queries = m.S.Queries - q0
 	x.R.SolverTime = (m.S.Time - t0).Seconds()
 	x.R.Wall = time.Since(start).Seconds()
+	if m.S.Errors > e0 {
+		x.R.Inconclusive = appendUniq(x.R.Inconclusive, fmt.Sprintf("solver reported %d error lines", m.S.Errors-e0))
+	}
 	for _, v := range x.viol {
 		x.R.Violations = append(x.R.Violations, v)
 	}
@@ -187,7 +192,7 @@ func (x *Explorer) runPath(prefix []Decision, concrete map[string]*big.Int) {
 	m.S.Pop(m.S.level)
 	m.S.Push()
 	p := &Path{prefix: prefix, names: map[string]int{}, Reached: map[string]bool{}, concCount: map[string]int{},
-		oracleMemo: map[string]*oracleApp{}, concrete: concrete, ghost: map[string]Value{}}
+		oracleMemo: map[string]*oracleApp{}, concrete: concrete, ghost: map[string]Value{}, pcSet: map[*Term]bool{}}
 	m.P = p
 	m.steps = 0
 	m.depth = 0
@@ -322,6 +327,7 @@ func (m *Machine) addPC(c *Term) {
 		return
 	}
 	m.P.pc = append(m.P.pc, c)
+	m.P.pcSet[c] = true
 	if m.P.concrete == nil {
 		m.S.Assert(c)
 	}
@@ -355,6 +361,12 @@ func (m *Machine) Branch(c *Term) bool {
 	}
 	if p.concrete != nil {
 		panic(engineBug{"symbolic condition in concrete replay: " + c.String()})
+	}
+	if p.pcSet[c] {
+		return true
+	}
+	if p.pcSet[Not(c)] {
+		return false
 	}
 	if p.replaying() {
 		d := p.prefix[len(p.decisions)]
